@@ -477,7 +477,7 @@ func (w *c11World) load(cookieHeader string) string {
 		return "-"
 	}
 	req.Header.Set("Cookie", cookieHeader)
-	s, err := w.px.P.sessionStore.Load(req)
+	s, err := verifSessionStore(w.px.P).Load(req)
 	if err != nil || s == nil {
 		return "-"
 	}
